@@ -115,8 +115,9 @@ inductive Stmt
   | loop (i n : Var) (inv : List Atom) (body : Stmt)
   /-- internal: the loop at iteration `k` -/
   | iter (i n : Var) (k : Nat) (body : Stmt)
-  /-- call of another anchored function: its skeleton runs in place (shared variables) -/
-  | invoke (f : String)
+  /-- call of another anchored function (index into the program table): its skeleton runs in place
+      (shared variables) -/
+  | invoke (f : Nat)
   /-- a function literal executed in place (`mwdb.View(db, func(tx) error { … })`): `ret` inside leaves
       only this scope -/
   | scope (body : Stmt)
@@ -129,14 +130,14 @@ inductive Fault
   | panic (kind text : String)
   | contract (f : String)
   | fuel
-  | unknownFn (f : String)
+  | unknownFn (f : Nat)
   deriving Repr, DecidableEq, Inhabited
 
 inductive Flow
   | norm (σ : State)
   | retd (σ : State)
 
-abbrev Prog := String → Option Stmt
+abbrev Prog := Nat → Option Stmt
 abbrev Oracle := String → State → List Nat
 
 def setMany (σ : State) : List Var → List Nat → State
@@ -231,7 +232,10 @@ def entailsA (A : List Atom) (a : Atom) : Bool :=
 
 /-- one round of forward chaining over the clauses -/
 def chainStep (F : Facts) (A : List Atom) : List Atom :=
-  F.foldl (fun acc c => if c.pre.all (entailsA acc) then acc ++ c.post.filter (fun a => !(acc.contains a)) else acc) A
+  F.foldl (fun acc c =>
+    -- unconditional facts are already in `A` (= atomsOf F): only implications are fired
+    if c.pre.isEmpty then acc
+    else if c.pre.all (entailsA acc) then acc ++ c.post.filter (fun a => !(acc.contains a)) else acc) A
 
 def chain (F : Facts) : Nat → List Atom → List Atom
   | 0, A => A
@@ -341,18 +345,19 @@ def invKept (inv : List Atom) : Option Facts → Bool
   | none => true
   | some G => inv.all (entails G)
 
+
 /-- `check P fuel F s = some (Fn, Fr)`: no site of `s` (and of the functions it invokes) can panic when
     the facts `F` hold; `Fn` are facts at the normal exit, `Fr` at the return exit (`none` = not
     reachable). `none`: rejected. -/
-def check (P : Prog) : Nat → Facts → Stmt → Option (Option Facts × Option Facts)
+def check (P : Prog) (X I : Nat → List Var) (C : Nat → Bool) : Nat → Facts → Stmt → Option (Option Facts × Option Facts)
   | 0, _, _ => none
   | _ + 1, F, .skip => some (some F, none)
   | n + 1, F, .seq a b =>
-    match check P n F a with
+    match check P X I C n F a with
     | none => none
     | some (none, Fr) => some (none, Fr)
     | some (some G, Fr) =>
-      match check P n G b with
+      match check P X I C n G b with
       | none => none
       | some (Gn, Gr) => some (Gn, meet Fr Gr)
   | _ + 1, F, .site _ _ req =>
@@ -368,8 +373,8 @@ def check (P : Prog) : Nat → Facts → Stmt → Option (Option Facts × Option
   | n + 1, F, .ite c t e =>
     let Ft := sat (union F ((c.pos F).map fact))
     let Fe := sat (union F ((c.neg F).map fact))
-    match (if inconsistent Ft then some (none, none) else check P n Ft t),
-          (if inconsistent Fe then some (none, none) else check P n Fe e) with
+    match (if inconsistent Ft then some (none, none) else check P X I C n Ft t),
+          (if inconsistent Fe then some (none, none) else check P X I C n Fe e) with
     | some (Tn, Tr), some (En, Er) => some (meet Tn En, meet Tr Er)
     | _, _ => none
   | n + 1, F, .loop i cnt inv body =>
@@ -381,7 +386,7 @@ def check (P : Prog) : Nat → Facts → Stmt → Option (Option Facts × Option
       if !(inv.all (entails F)) then none
       else if inv.any (fun a => a.vars.contains i) || i == cnt then none
       else
-        match check P n (sat (union (union Fk (inv.map fact)) [fact (.lt i cnt)])) body with
+        match check P X I C n (sat (union (union Fk (inv.map fact)) [fact (.lt i cnt)])) body with
         | none => none
         | some (Bn, Br) => if invKept inv Bn then some (some (union Fk (inv.map fact)), Br) else none
   | _ + 1, _, .iter _ _ _ _ => none
@@ -389,16 +394,35 @@ def check (P : Prog) : Nat → Facts → Stmt → Option (Option Facts × Option
     match P f with
     | none => none
     | some body =>
-      match check P n F body with
+      match assigned P n body with
       | none => none
-      | some (Bn, Br) => some (meet Bn Br, none)
+      | some L =>
+        -- a CLOSED function is safe from no assumptions at all (checked once, on its own: `ClosedOK`) and
+        -- its callers rely on nothing it establishes: the call only forgets what is known about the
+        -- variables it assigns
+        if C f then some (some (F.filter (fun c => !(c.vars.any (fun x => L.contains x)))), none) else
+        -- the callee is checked from the caller's facts about its inputs (`I f`) only; on return the caller
+        -- keeps its facts about variables the callee did not assign and learns the callee's facts about
+        -- its results (`X f`). Dropping facts is always sound; it keeps the fact sets small.
+        match check P X I C n (F.filter (fun c => c.vars.all (fun x => (I f).contains x))) body with
+        | none => none
+        | some (Bn, Br) =>
+          match meet Bn Br with
+          | none => some (none, none)
+          | some R =>
+            some (some (sat (union (F.filter (fun c => !(c.vars.any (fun x => L.contains x))))
+                                   (R.filter (fun c => c.vars.all (fun x => !(L.contains x) || (X f).contains x))))), none)
   | n + 1, F, .scope body =>
-    match check P n F body with
+    match check P X I C n F body with
     | none => none
     | some (Bn, Br) => some (meet Bn Br, none)
   | _ + 1, F, .ret => some (none, some F)
 
 /-- a root skeleton (API handler / follower entry point) is accepted from no assumptions -/
-def safe (P : Prog) (fuel : Nat) (s : Stmt) : Bool := (check P fuel [] s).isSome
+def safe (P : Prog) (X I : Nat → List Var) (C : Nat → Bool) (fuel : Nat) (s : Stmt) : Bool := (check P X I C fuel [] s).isSome
+
+/-- every function declared closed is accepted from no assumptions -/
+def ClosedOK (P : Prog) (X I : Nat → List Var) (C : Nat → Bool) : Prop :=
+  ∀ f, C f = true → ∃ body m, P f = some body ∧ (check P X I C m [] body).isSome = true
 
 end MW.Model.Api
